@@ -30,6 +30,7 @@ type VerifEvent struct {
 	A    int64
 	B    int64
 	C    int64
+	Ref  any // the object itself (the sink runs synchronously at the hook point, under whatever lock protects it)
 }
 
 var (
@@ -67,7 +68,7 @@ func verifEv(kind string, obj any, a, b, c int64) {
 	if f == nil {
 		return
 	}
-	f(VerifEvent{Seq: verifSeq.Add(1), Kind: kind, Obj: VerifObjID(obj), A: a, B: b, C: c})
+	f(VerifEvent{Seq: verifSeq.Add(1), Kind: kind, Obj: VerifObjID(obj), A: a, B: b, C: c, Ref: obj})
 }
 
 func verifWorkerID() int64 { return verifWorker.Add(1) }
@@ -180,6 +181,11 @@ func (kcp *KCP) VerifState() VerifKCPState {
 		st.AckList = append(st.AckList, [2]uint32{a.sn, a.ts})
 	}
 	return st
+}
+
+// VerifWindows is the light projection used at the flush hooks.
+func (kcp *KCP) VerifWindows() (sndUna, sndNxt, sndWnd, rmtWnd, cwnd uint32, nocwnd int32) {
+	return kcp.snd_una, kcp.snd_nxt, kcp.snd_wnd, kcp.rmt_wnd, kcp.cwnd, kcp.nocwnd
 }
 
 // VerifRcvBufTop returns the sequence number on top of the receive heap (ok=false if empty).
